@@ -28,7 +28,7 @@ SHARD = 300
 INITS = {'int': ('IInt', int), 'list': ('IList', list), 'tuple': ('ITuple', tuple), 'str': ('IStr', str),
          'dict': ('(IDict false)', dict), 'odict': ('(IDict true)', collections.OrderedDict)}
 OPS = {'iadd': ('OIadd', operator.iadd), 'add': ('OAdd', operator.add), 'mul': ('OMul', operator.mul),
-       'count': ('OCount', lambda cur, val: cur + 1), 'update': ('OUpdate', None)}
+       'count': ('OCount', lambda cur, val: cur + 1), 'update': ('OUpdate', None), 'last': ('OLast', lambda cur, val: val)}
 
 
 class Gen:
@@ -46,6 +46,8 @@ class Gen:
             return r.choice([0, 1, 2, 5, -3, True])
         if kind == 'str':
             return r.choice(['', 'a', 'xy'])
+        if kind == 'optint':
+            return r.choice([1, 2, None, 0, None])
         if kind in ('list', 'tuple'):
             sub = r.choice(['int', 'int', 'str']) if depth <= 0 else r.choice(['int', 'list', 'tuple'])
             return {'k': kind, 'id': self.fid() if kind == 'list' or True else 0, 'items': [self.item(sub, depth - 1) for _ in range(r.randint(0 if kind == 'list' else 1, 3))]}
@@ -56,7 +58,7 @@ class Gen:
 
     def case(self):
         r = self.r
-        kind = r.choice(['int', 'int', 'list', 'list', 'tuple', 'str', 'dict', 'dict', 'mixed'])
+        kind = r.choice(['int', 'int', 'list', 'list', 'tuple', 'str', 'dict', 'dict', 'mixed', 'optint'])
         n = r.choice([0, 1, 2, 3, 3, 4, 5])
         depth = r.choice([0, 1, 2])
         items = [self.item(kind if kind != 'mixed' else r.choice(['int', 'list', 'str', 'dict']), depth) for _ in range(n)]
@@ -69,13 +71,13 @@ class Gen:
             cont = 'list'
         c = r.random()
         natural = {'int': ('int', 'iadd'), 'list': ('list', 'iadd'), 'tuple': ('tuple', 'iadd'), 'str': ('str', 'iadd'),
-                   'dict': ('dict', 'update'), 'mixed': ('list', 'iadd')}[kind]
+                   'dict': ('dict', 'update'), 'mixed': ('list', 'iadd'), 'optint': ('int', 'last')}[kind]
         if c < 0.45:
             init, op = natural
             if r.random() < 0.25:
                 init = r.choice(list(INITS))
             if r.random() < 0.2:
-                op = r.choice(['iadd', 'add', 'mul', 'count'])
+                op = r.choice(['iadd', 'add', 'mul', 'count', 'last'])
             if init in ('dict', 'odict') and op != 'update':
                 op = 'update'
             if op == 'update' and init not in ('dict', 'odict'):
@@ -261,7 +263,8 @@ def model_dump_term(case):
 def direct_oracle(case, out):
     if out.get('input_untouched') is False:
         return 'an input element was mutated'
-    if out.get('fresh_each_time') is False and not (case['op'][0] == 'levels' and case['op'][1] == 0):
+    selects = case['op'][0] == 'fold' and case['op'][2] == 'last'      # an op that returns an input element: the result IS that element
+    if out.get('fresh_each_time') is False and not (case['op'][0] == 'levels' and case['op'][1] == 0) and not selects:
         return 'two evaluations of one spec returned the same container object'
     if out.get('second_same_value') is False and not case['gen']:
         return 'the second evaluation of the same spec object gives a different value'
